@@ -2,7 +2,7 @@
    Statements only; proofs in proofs/AbftDfs.v AbftChain.v AbftSeal.v AbftProcess.v. *)
 From Coq Require Import NArith List.
 From LV Require Import model.VecIndex model.Abft model.AbftRun spec.AbftSpec
-  proofs.AbftDfs proofs.AbftSeal proofs.AbftProcess proofs.AbftChain proofs.AbftRoots proofs.AbftRooted proofs.AbftSealWitness.
+  proofs.AbftDfs proofs.AbftDfsFuel proofs.AbftSeal proofs.AbftProcess proofs.AbftChain proofs.AbftRoots proofs.AbftRooted proofs.AbftRunInv proofs.AbftSealWitness.
 Import ListNotations.
 Local Open Scope N_scope.
 
@@ -17,6 +17,11 @@ Theorem C02_dfs_delivers_new_ancestry : forall es frame, frame <> 0 -> forall C0
   (forall x, conf_get conf' x = if in_dec N.eq_dec x dl then frame else conf_get C0 x) /\
   closed es conf'.
 Proof. exact dfs_confirm_spec. Qed.
+
+(* the fuel the model gives to that DFS always suffices (the traversal terminates) *)
+Theorem C02_dfs_fuel_enough : forall es frame atr conf, frame <> 0 ->
+  dfs_confirm (confirm_fuel es) es frame [atr] conf [] <> Err EFuel.
+Proof. exact confirm_never_out_of_fuel. Qed.
 
 (* One Process call: its blocks deliver in turn, without repetition, exactly the ancestry of their Atropos
    that was neither confirmed before the call nor delivered by an earlier block of the call; afterwards
@@ -54,6 +59,11 @@ Proof. exact process_atropos_rooted. Qed.
 Theorem C02_V_initially : forall ep v st, V (genesis ep v) /\ V (reset st ep v).
 Proof. intros; split; [apply V_genesis | apply V_reset_state]. Qed.
 
+(* the hypotheses elinv and V of the theorems above hold in every state reachable by any operation sequence *)
+Theorem C02_invariants_hold_on_every_run : forall cap pol smp epoch raw ops,
+  let st := i_st (run_inst cap pol smp (start epoch raw) ops) in elinv st /\ V st.
+Proof. intros. apply run_good. apply start_good. Qed.
+
 (* restart: the blocks Bootstrap may emit obey the same numbering *)
 Theorem C02_bootstrap_frames : forall cap end_block es p r bl st',
   bootstrap cap end_block es p = (r, bl, st') ->
@@ -70,9 +80,11 @@ Example C02_witness_run :
 Proof. vm_compute. repeat split. Qed.
 
 Print Assumptions C02_dfs_delivers_new_ancestry.
+Print Assumptions C02_dfs_fuel_enough.
 Print Assumptions C02_process_delivers.
 Print Assumptions C02_epoch_starts_unconfirmed.
 Print Assumptions C02_frames_consecutive.
 Print Assumptions C02_bootstrap_frames.
 Print Assumptions C02_atropos_is_root.
 Print Assumptions C02_V_initially.
+Print Assumptions C02_invariants_hold_on_every_run.
